@@ -260,7 +260,8 @@ pub struct Ctx {
     pub only: Option<String>,
     /// symbolic mode: instead of recording concrete cases, enumerate the paths of each function once
     pub sym: bool,
-    pub sym_seen: HashSet<(String, usize)>,
+    /// (function, arity) -> (positions of the inputs the code needs concretely, signatures already explored)
+    pub sym_seen: std::collections::HashMap<(String, usize), (Vec<u32>, HashSet<Vec<BigRat>>)>,
     pub sym_fns: Vec<SymFn>,
     /// probe mode: run the named functions on the given inputs only (search for a failing input, symgen.py)
     pub probes: Option<std::collections::HashMap<String, Vec<Vec<BigRat>>>>,
@@ -277,10 +278,13 @@ pub struct SymFn {
     pub f: String,
     pub arity: usize,
     pub paths: Vec<SymPath>,
+    /// inputs that the code needed as concrete numbers, with the values of the case that was explored
+    pub concretized: Vec<(u32, BigRat)>,
     /// why the function could not be executed symbolically (None = all paths enumerated)
     pub unsupported: Option<String>,
 }
 pub const SYM_MAX_PATHS: usize = 600;
+pub const SYM_MAX_SIGNATURES: usize = 160;
 
 fn panic_msg(e: Box<dyn std::any::Any + Send>) -> String {
     if let Some(s) = e.downcast_ref::<&str>() {
@@ -298,7 +302,7 @@ pub fn rats(xs: &[Xq]) -> Vec<BigRat> {
 
 impl Ctx {
     pub fn new(seed: u64, scale: usize) -> Ctx {
-        Ctx { rng: Rng(seed), seed, scale, cases: vec![], pred_evals: 0, pred_fails: vec![], only: None, sym: false, sym_seen: HashSet::new(), sym_fns: vec![], probes: None, probe_done: HashSet::new() }
+        Ctx { rng: Rng(seed), seed, scale, cases: vec![], pred_evals: 0, pred_fails: vec![], only: None, sym: false, sym_seen: Default::default(), sym_fns: vec![], probes: None, probe_done: HashSet::new() }
     }
 
     /// Run `body` on freshly allocated inputs and record the case.
@@ -310,8 +314,25 @@ impl Ctx {
             }
         }
         if self.sym {
-            if self.sym_seen.insert((f.to_string(), inp.len())) {
-                let sf = sym_explore(f, inp.len(), setup, body);
+            let key = (f.to_string(), inp.len());
+            let explore = match self.sym_seen.get(&key) {
+                None => true,
+                Some((pos, seen)) => {
+                    let sig: Vec<BigRat> = pos.iter().map(|&i| inp[i as usize].clone()).collect();
+                    !pos.is_empty() && !seen.contains(&sig) && seen.len() < SYM_MAX_SIGNATURES
+                }
+            };
+            if explore {
+                let sf = sym_explore(f, inp, setup, body);
+                let e = self.sym_seen.entry(key).or_insert_with(|| (vec![], HashSet::new()));
+                for (i, _) in &sf.concretized {
+                    if !e.0.contains(i) {
+                        e.0.push(*i);
+                        e.0.sort();
+                    }
+                }
+                let sig: Vec<BigRat> = e.0.iter().map(|&i| inp[i as usize].clone()).collect();
+                e.1.insert(sig);
                 self.sym_fns.push(sf);
             }
             return;
@@ -468,14 +489,16 @@ impl Ctx {
 }
 
 /// depth-first enumeration of the paths of `body` run on symbolic inputs (see sym.rs)
-fn sym_explore<R: ToOut>(f: &str, arity: usize, setup: &dyn Fn(), body: &dyn Fn(&[Xq]) -> R) -> SymFn {
+fn sym_explore<R: ToOut>(f: &str, inp: &[BigRat], setup: &dyn Fn(), body: &dyn Fn(&[Xq]) -> R) -> SymFn {
+    let arity = inp.len();
+    let mut concretized: std::collections::BTreeMap<u32, BigRat> = Default::default();
     let mut paths = vec![];
     let mut script: Vec<bool> = vec![];
     let mut unsupported = None;
     loop {
         xq::reset();
         setup();
-        sym::begin(&script);
+        sym::begin(&script, inp);
         let xs: Vec<Xq> = (0..arity).map(|i| Xq::input(i as u32)).collect();
         let res = catch_unwind(AssertUnwindSafe(|| body(&xs).to_out()));
         let st = sym::end();
@@ -491,6 +514,9 @@ fn sym_explore<R: ToOut>(f: &str, arity: usize, setup: &dyn Fn(), body: &dyn Fn(
             }
         };
         let mut trace = st.trace.clone();
+        for (i, v) in &st.concretized {
+            concretized.insert(*i, v.clone());
+        }
         paths.push(SymPath { nodes: st.nodes, conds: st.conds, out });
         if paths.len() > SYM_MAX_PATHS {
             unsupported = Some(format!("more than {} paths", SYM_MAX_PATHS));
@@ -507,7 +533,7 @@ fn sym_explore<R: ToOut>(f: &str, arity: usize, setup: &dyn Fn(), body: &dyn Fn(
         trace[n - 1] = true;
         script = trace;
     }
-    SymFn { f: f.to_string(), arity, paths, unsupported }
+    SymFn { f: f.to_string(), arity, paths, concretized: concretized.into_iter().collect(), unsupported }
 }
 
 // ---------- building cgmath values from flattened inputs ----------
@@ -635,7 +661,8 @@ pub fn write_sym(path: &str, fns: &[SymFn]) {
             format!("{{\"nodes\":[{}],\"conds\":[{}],\"out\":{}}}", nodes, conds, jout(&p.out))
         }).collect();
         let uns = match &sf.unsupported { Some(m) => js(m), None => "null".to_string() };
-        writeln!(f, "{{\"f\":{},\"arity\":{},\"unsupported\":{},\"paths\":[{}]}}", js(&sf.f), sf.arity, uns, paths.join(",")).unwrap();
+        let conc = sf.concretized.iter().map(|(i, v)| format!("\"{}\":{}", i, jq(v))).collect::<Vec<_>>().join(",");
+        writeln!(f, "{{\"f\":{},\"arity\":{},\"unsupported\":{},\"conc\":{{{}}},\"paths\":[{}]}}", js(&sf.f), sf.arity, uns, conc, paths.join(",")).unwrap();
     }
 }
 
